@@ -50,6 +50,16 @@ VERIF_MINMAX(int64_t)
 VERIF_MINMAX(uint32_t)
 VERIF_MINMAX(int32_t)
 
+/* std::exchange on plain objects */
+static inline void *verif_exchange_ptr(void **p, void *v) { void *o = *p; *p = v; return o; }
+#define VERIF_EXCHANGE(T) static inline T verif_exchange_##T(T *p, T v) { T o = *p; *p = v; return o; }
+VERIF_EXCHANGE(uint64_t)
+VERIF_EXCHANGE(size_t)
+VERIF_EXCHANGE(uint32_t)
+VERIF_EXCHANGE(int64_t)
+VERIF_EXCHANGE(int32_t)
+VERIF_EXCHANGE(_Bool)
+
 static inline atomic_u64 atomic_u64_init(uint64_t v) { atomic_u64 a; a.v = v; return a; }
 static inline atomic_b atomic_b_init(_Bool v) { atomic_b a; a.v = v; return a; }
 
